@@ -87,3 +87,25 @@ theorem first_pointer_is_not_oldest :
     let s : VS := { files := [1, 2, 3], active := 3,
                     tables := [{ id := 9, ptrs := [3, 1], oldest := 3 }] }   -- 3 = first pointer, not min
     (1 : Nat) ∉ s.cleanup.files := by decide
+
+/-! ### compaction in progress -/
+
+theorem act2_inv (x : VS2) (h : x.s.inv) (a : VAct2)
+    (hok : ∀ id ptrs, a = .flush id ptrs → (∀ p ∈ ptrs, p ∈ x.s.files) ∧ (∀ p ∈ ptrs, 0 < p)) :
+    (x.act false a).s.inv := by
+  cases a with
+  | newFile f => exact newFile_inv x.s h f
+  | flush id ptrs => exact addTable_inv x.s h id ptrs (hok id ptrs rfl).1 (hok id ptrs rfl).2
+  | cleanup => simpa [VS2.act] using cleanup_inv x.s h
+  | hide ids => exact h
+  | finish newId =>
+    simp only [VS2.act]
+    apply dropTables_inv
+    apply addTable_inv x.s h
+    · intro p hp
+      obtain ⟨t, ht, hpt⟩ := List.mem_flatMap.mp hp
+      exact (h t (List.mem_filter.mp ht).1 p hpt).1
+    · intro p hp
+      obtain ⟨t, ht, hpt⟩ := List.mem_flatMap.mp hp
+      have := h t (List.mem_filter.mp ht).1 p hpt
+      omega
